@@ -240,6 +240,10 @@ func runReelectCase(o *hx.Out, p params) (string, int64) {
 	total := n.clk.count()
 	lr.close()
 	checkLive(o, p, n.kvf.takeLog(), sched)
+	if lr.refused {
+		o.Count("request-refused-by-leader")
+		return "refused", 0
+	}
 	if !ok && !crashed {
 		reportStuck(o, p, "the re-election scenario did not complete: "+sched)
 		return "stuck", 0
